@@ -20,8 +20,61 @@ def unwrap_plain(v):
     return v
 
 
+class OneShot:
+    """model of a one-shot iterator object (zip / map / filter / enumerate / reversed / generator expression).
+    CPython semantics kept: consumed at most once (a second pass sees what is left: nothing), always truthy, no len(), no indexing.  The elements were
+    computed eagerly (the model does not interleave their evaluation with the consumer).  Its position is a single state, so it may only be consumed under the
+    path condition it was created under; anything else is refused (Unsupported -> UNDECIDED) instead of guessed."""
+    _hv_oneshot = True
+
+    def __init__(self, interp, items, kind):
+        self.interp, self.items, self.kind = interp, list(items), kind
+        self.pos = 0
+        self.guard = getattr(interp, "cur_g", True)
+
+    def _same_path(self, g):
+        if g is not self.guard:
+            raise Unsupported(f"one-shot {self.kind} iterator consumed under another path condition than it was created under")
+
+    def take_all(self, g):
+        self._same_path(g)
+        rest = self.items[self.pos:]
+        self.pos = len(self.items)
+        return rest
+
+    def take_one(self, g):
+        self._same_path(g)
+        if self.pos >= len(self.items):
+            return None
+        gd, v = self.items[self.pos]
+        if any(x is not True for x, _ in self.items[:self.pos + 1]):
+            raise Unsupported(f"next() on a {self.kind} iterator with symbolic membership")
+        self.pos += 1
+        return (v,)
+
+    def __iter__(self):                       # native consumer (dict(zip(..)), ''.join(<generator>), np.array(list(..)))
+        rest = self.take_all(getattr(self.interp, "cur_g", True))
+        if any(g is not True for g, _ in rest):
+            raise Unsupported(f"{self.kind} iterator with symbolic membership passed to native code")
+        return iter([to_native(v) for _, v in rest])
+
+    def __bool__(self):
+        return True
+
+    def __len__(self):
+        raise Unsupported(f"len() of a {self.kind} iterator (TypeError in CPython)")
+
+    def __getitem__(self, i):
+        raise Unsupported(f"indexing a {self.kind} iterator (TypeError in CPython)")
+
+    def __repr__(self):
+        return f"<one-shot {self.kind} iterator, {len(self.items) - self.pos} left>"
+
+
 def to_native(v):
     """deep conversion of interpreter containers to native ones (GList -> list); symbolic content stays"""
+    if isinstance(v, OneShot):
+        return iter(v)
     if isinstance(v, GList):
         return [to_native(x) for x in v.plain()]
     if isinstance(v, tuple):
@@ -94,6 +147,8 @@ def binop(interp, f, a, b):
                 b = sarr(bb, bb.dtype)
             if f is operator.matmul:
                 _range_check(interp, a, b, decl)
+            elif f in (operator.add, operator.sub, operator.mul, operator.lshift, operator.pow, operator.iadd, operator.isub, operator.imul, operator.ilshift):
+                _elementwise_range_guard(f, a, b, decl)
             if is_sym(a) or is_sym(b):
                 # scalar (symbolic) with array: elementwise by hand (numpy would try to treat the scalar as a sequence)
                 arr, sc, left = (b, a, True) if is_sym(a) else (a, b, False)
@@ -108,6 +163,59 @@ def binop(interp, f, a, b):
     return f(a, b)
 
 
+def _value_range(v):
+    if isinstance(v, (bool, np.bool_)):
+        return int(v), int(v)
+    if isinstance(v, (int, np.integer)):
+        return int(v), int(v)
+    if isinstance(v, SB):
+        return 0, 1
+    if isinstance(v, SL):
+        return v.bounds()
+    if isinstance(v, SV):
+        rs = [_value_range(x) for _, x in v.alts]
+        if any(r is None for r in rs):
+            return None
+        return min(r[0] for r in rs), max(r[1] for r in rs)
+    return None
+
+
+def _elementwise_range_guard(f, a, b, decl):
+    """numpy computes elementwise integer arithmetic in the operands' fixed-width dtype and WRAPS silently; the model computes mathematical integers.  If some
+    entry of the result could leave the dtype's range the model would be unfaithful, so it refuses (UNDECIDED) instead of proving something about other numbers."""
+    if decl is None:
+        return
+    dt = np.dtype(decl)
+    if dt.kind not in "iu" or dt.itemsize >= 8:
+        return
+    info = np.iinfo(dt)
+    ra = [_value_range(x) for x in (a.reshape(-1) if isinstance(a, np.ndarray) else [a])]
+    rb = [_value_range(x) for x in (b.reshape(-1) if isinstance(b, np.ndarray) else [b])]
+    if any(r is None for r in ra + rb) or not ra or not rb:
+        return
+    alo, ahi = min(r[0] for r in ra), max(r[1] for r in ra)
+    blo, bhi = min(r[0] for r in rb), max(r[1] for r in rb)
+    if f in (operator.add, operator.iadd):
+        lo, hi = alo + blo, ahi + bhi
+    elif f in (operator.sub, operator.isub):
+        lo, hi = alo - bhi, ahi - blo
+    elif f in (operator.mul, operator.imul):
+        c = [alo * blo, alo * bhi, ahi * blo, ahi * bhi]
+        lo, hi = min(c), max(c)
+    elif f in (operator.lshift, operator.ilshift):
+        if blo < 0 or bhi > 62:
+            return
+        c = [alo << blo, alo << bhi, ahi << blo, ahi << bhi]
+        lo, hi = min(c), max(c)
+    else:
+        if blo < 0 or bhi > 16 or max(abs(alo), abs(ahi)) > 1 << 16:
+            return
+        c = [alo ** blo, alo ** bhi, ahi ** blo, ahi ** bhi]
+        lo, hi = min(c + [0]), max(c)
+    if lo < info.min or hi > info.max:
+        raise Unsupported(f"elementwise {f.__name__} on {dt} arrays may leave the dtype's range ([{lo}, {hi}]): numpy wraps around, the model does not")
+
+
 def _range_check(interp, a, b, decl):
     """int8 products: numpy computes m1 @ m2 in the operands' dtype; record that no entry can leave [-128,127]"""
     if decl is not None and np.dtype(decl) == np.int8:
@@ -119,6 +227,8 @@ def _range_check(interp, a, b, decl):
 # -------------------------------------------------------------------------------------- iteration
 
 def iter_values(interp, v, g):
+    if isinstance(v, OneShot):
+        return v.take_all(g)
     if isinstance(v, GList):
         return list(v.slots)
     if isinstance(v, (list, tuple, range, str, dict, set, frozenset)) or isinstance(v, (itertools.product, itertools.combinations, zip, enumerate, map, filter, reversed)):
@@ -757,27 +867,27 @@ def b_range(interp, *args):
 def b_list(interp, v=()):
     if isinstance(v, GList):
         return v.copy()
-    return GList.guarded(iter_values(interp, v, True))
+    return GList.guarded(iter_values(interp, v, interp.cur_g))
 
 
 def b_tuple(interp, v=()):
-    items = iter_values(interp, v, True)
+    items = iter_values(interp, v, interp.cur_g)
     if any(g is not True for g, _ in items):
         raise Unsupported("tuple of a list with symbolic membership")
     return tuple(x for _, x in items)
 
 
 def b_all(interp, v):
-    return mkbool(X.And(*[X.Implies(g, bexpr(x)) for g, x in iter_values(interp, v, True)]))
+    return mkbool(X.And(*[X.Implies(g, bexpr(x)) for g, x in iter_values(interp, v, interp.cur_g)]))
 
 
 def b_any(interp, v):
-    return mkbool(X.Or(*[X.And(g, bexpr(x)) for g, x in iter_values(interp, v, True)]))
+    return mkbool(X.Or(*[X.And(g, bexpr(x)) for g, x in iter_values(interp, v, interp.cur_g)]))
 
 
 def b_sum(interp, v, start=0):
     acc = start
-    for g, x in iter_values(interp, v, True):
+    for g, x in iter_values(interp, v, interp.cur_g):
         if g is True:
             acc = acc + x
         else:
@@ -786,43 +896,72 @@ def b_sum(interp, v, start=0):
 
 
 def b_enumerate(interp, v, start=0):
-    items = iter_values(interp, v, True)
+    items = iter_values(interp, v, interp.cur_g)
     if all(g is True for g, _ in items):
-        return [(i + start, x) for i, (_, x) in enumerate(items)]
+        return OneShot(interp, [(True, (i + start, x)) for i, (_, x) in enumerate(items)], "enumerate")
     out = []
     for j, (g, x) in enumerate(items):
         pos = GList.guarded(items[:j]).length()
         out.append((g, (pos + start, x)))
-    return GList.guarded(out)
+    return OneShot(interp, out, "enumerate")
 
 
 def b_zip(interp, *vs):
-    cols = [iter_values(interp, v, True) for v in vs]
+    cols = [iter_values(interp, v, interp.cur_g) for v in vs]
     if any(g is not True for c in cols for g, _ in c):
         raise Unsupported("zip over lists with symbolic membership")
-    return list(zip(*[[x for _, x in c] for c in cols]))
+    return OneShot(interp, [(True, t) for t in zip(*[[x for _, x in c] for c in cols])], "zip")
 
 
 def b_map(interp, f, *vs):
-    cols = [iter_values(interp, v, True) for v in vs]
+    g0 = interp.cur_g
+    cols = [iter_values(interp, v, g0) for v in vs]
     if len(cols) == 1:
-        return GList.guarded([(g, interp.call(f, [x], {}, True)) for g, x in cols[0]])
+        return OneShot(interp, [(g, interp.call(f, [x], {}, X.And(g0, g))) for g, x in cols[0]], "map")
     if any(g is not True for c in cols for g, _ in c):
         raise Unsupported("map over lists with symbolic membership")
-    return GList([interp.call(f, list(xs), {}, True) for xs in zip(*[[x for _, x in c] for c in cols])])
+    return OneShot(interp, [(True, interp.call(f, list(xs), {}, g0)) for xs in zip(*[[x for _, x in c] for c in cols])], "map")
 
 
 def b_filter(interp, f, v):
     out = []
-    for g, x in iter_values(interp, v, True):
-        c = bexpr(interp.call(f, [x], {}, True)) if f is not None else bexpr(x)
-        out.append((X.And(g, c), x))
-    return GList.guarded(out)
+    g0 = interp.cur_g
+    for g, x in iter_values(interp, v, g0):
+        c = bexpr(interp.call(f, [x], {}, X.And(g0, g))) if f is not None else bexpr(x)
+        if X.And(g, c) is not False:
+            out.append((X.And(g, c), x))
+    return OneShot(interp, out, "filter")
 
 
 def b_reversed(interp, v):
-    items = iter_values(interp, v, True)
-    return GList.guarded(list(reversed(items)))
+    if isinstance(v, OneShot):
+        raise Unsupported("reversed() of an iterator (TypeError in CPython)")
+    items = iter_values(interp, v, interp.cur_g)
+    return OneShot(interp, [(g, x) for g, x in reversed(items) if g is not False], "reversed")
+
+
+_MISSING = object()
+
+
+def b_next(interp, it, default=_MISSING):
+    if isinstance(it, OneShot):
+        r = it.take_one(interp.cur_g)
+        if r is not None:
+            return r[0]
+        if default is _MISSING:
+            raise Unsupported("next() on an exhausted iterator (StopIteration)")
+        return default
+    if has_sym(it):
+        raise Unsupported("next() on a symbolic value")
+    return next(it) if default is _MISSING else next(it, default)
+
+
+def b_iter(interp, v):
+    if isinstance(v, OneShot):
+        return v
+    if isinstance(v, GList) or (isinstance(v, np.ndarray) and v.dtype == object):
+        return OneShot(interp, iter_values(interp, v, interp.cur_g), "iter")
+    return iter(v)
 
 
 def b_isinstance(interp, v, t):
@@ -876,7 +1015,7 @@ def b_bool(interp, v=False):
 
 def b_min(interp, *vs, **kw):
     if len(vs) == 1:
-        vs = [x for _, x in iter_values(interp, vs[0], True)]
+        vs = [x for _, x in iter_values(interp, vs[0], interp.cur_g)]
     if not any(is_sym(v) for v in vs):
         return min(vs, **kw)
     acc = vs[0]
@@ -887,7 +1026,7 @@ def b_min(interp, *vs, **kw):
 
 def b_max(interp, *vs, **kw):
     if len(vs) == 1:
-        vs = [x for _, x in iter_values(interp, vs[0], True)]
+        vs = [x for _, x in iter_values(interp, vs[0], interp.cur_g)]
     if not any(is_sym(v) for v in vs):
         return max(vs, **kw)
     acc = vs[0]
@@ -930,7 +1069,7 @@ def m_quantum_circuit(interp, *args, **kw):
 BUILTIN_MODELS = {
     len: b_len, range: b_range, list: b_list, tuple: b_tuple, all: b_all, any: b_any, sum: b_sum, enumerate: b_enumerate,
     zip: b_zip, map: b_map, filter: b_filter, reversed: b_reversed, isinstance: b_isinstance, int: b_int, bool: b_bool,
-    min: b_min, max: b_max, sorted: b_sorted, str: b_str, type: b_type, _copy.deepcopy: m_deepcopy, itertools.product: m_product,
+    min: b_min, max: b_max, sorted: b_sorted, next: b_next, iter: b_iter, str: b_str, type: b_type, _copy.deepcopy: m_deepcopy, itertools.product: m_product,
 }
 
 USE_CIRCUIT_MODEL = [False]
